@@ -19,14 +19,14 @@ import (
 
 const (
 	nsPerSec  = int64(1000000000)
-	timeZero  = "(-62135596800000000000)%Z" // Bucket.time_zero
+	timeZero  = "ZT0"                        // Bucket.time_zero
 	clockBase = int64(1000000000) * nsPerSec // virtual clock origin (2001): keeps now-2^63ns in range
 )
 
 func init() {
 	register(&Driver{
 		Name:     "bucket",
-		Header:   "From ZenoV Require Import Lib.Harness Rate.Bucket Rate.RateHarness.\nOpen Scope Z_scope.\n",
+		Header:   "From Coq Require Import Uint63.\nFrom ZenoV Require Import Lib.Harness Rate.Bucket Rate.RateHarness.\nOpen Scope uint63_scope.\n",
 		CaseType: "bcase",
 		Footer:   stdFooter,
 		Rule: "one case = (capacity, configured rate, history of 15-200 operations W(ait)/F(ail status)/S(ucc)/R(efill) with the clock " +
@@ -49,9 +49,8 @@ func parseFbits(s string) float64 {
 // coqFl: a finite non-negative binary64 as the exact pair (m, e), value m * 2^e
 func coqFl(f float64) string {
 	if math.IsNaN(f) || math.IsInf(f, 0) {
-		return "(0%Z, 99999%Z)" // never produced by the generator; makes the model disagree loudly
+		return "(F 0 9999)" // never produced by the generator; makes the model disagree loudly
 	}
-	neg := math.Signbit(f)
 	frac, exp := math.Frexp(math.Abs(f))
 	m := int64(frac * (1 << 53))
 	e := exp - 53
@@ -62,10 +61,11 @@ func coqFl(f float64) string {
 	if m == 0 {
 		e = 0
 	}
-	if neg {
-		m = -m
+	c := "F"
+	if math.Signbit(f) && m != 0 {
+		c = "FN"
 	}
-	return fmt.Sprintf("(%s, %s)", coqZ(m), coqZ(int64(e)))
+	return fmt.Sprintf("(%s %d %d)", c, m, e+1100)
 }
 
 // ---- generator ----
@@ -262,9 +262,9 @@ type escape struct{}
 func coqState(s ratelimiter.VerifState) string {
 	pen := timeZero
 	if !s.PenZero {
-		pen = coqZ(s.Pen)
+		pen = coqZi(s.Pen)
 	}
-	return fmt.Sprintf("(BS %s %s %s %s %s)", coqFl(s.Tokens), coqFl(s.Rate), coqZ(s.Last), pen, coqZ(int64(s.Fails)))
+	return fmt.Sprintf("(BS %s %s %s %s %s)", coqFl(s.Tokens), coqFl(s.Rate), uz(s.Last), pen, coqZi(int64(s.Fails)))
 }
 
 func execBucket(in string) Result {
@@ -368,7 +368,7 @@ func execBucket(in string) Result {
 						inPenaltyPoll = true
 					}
 				}
-				steps = append(steps, fmt.Sprintf("(HTry %s %s, %s)", coqZ(readings[k]), coqBool(g), coqState(post)))
+				steps = append(steps, fmt.Sprintf("(HT %s %s) %s", uz(readings[k]), coqBool(g), coqState(post)))
 			}
 			streak = 0
 		default:
@@ -396,21 +396,21 @@ func execBucket(in string) Result {
 			}
 			if len(readings) != 1 {
 				// the operation did not read the clock exactly once: report it as a model difference
-				steps = append(steps, fmt.Sprintf("(HRefill 0%%Z, %s)", coqState(ratelimiter.VerifState{Tokens: -1})))
+				steps = append(steps, fmt.Sprintf("(HR 0) %s", coqState(ratelimiter.VerifState{Tokens: -1})))
 				continue
 			}
 			t := readings[0]
 			noteTime(t)
 			switch {
 			case name == "S":
-				h = fmt.Sprintf("HSucc %s", coqZ(t))
+				h = fmt.Sprintf("HS %s", uz(t))
 			case name == "R":
-				h = fmt.Sprintf("HRefill %s", coqZ(t))
+				h = fmt.Sprintf("HR %s", uz(t))
 			default:
 				code, _ := strconv.Atoi(name[1:])
-				h = fmt.Sprintf("HFail %s %s", coqZ(t), coqZ(int64(code)))
+				h = fmt.Sprintf("HF %s %s", uz(t), coqZi(int64(code)))
 			}
-			steps = append(steps, fmt.Sprintf("(%s, %s)", h, coqState(vb.State())))
+			steps = append(steps, fmt.Sprintf("(%s) %s", h, coqState(vb.State())))
 		}
 	}
 
@@ -452,7 +452,7 @@ func execBucket(in string) Result {
 	}
 	sortStrings(tl)
 	return Result{
-		Term: fmt.Sprintf("BC %s %s %s %s", coqFl(capv), coqFl(rate), coqState(st0), coqList(steps)),
+		Term: fmt.Sprintf("BC %s %s %s %s", coqFl(capv), coqFl(rate), coqState(st0), coqSteps(steps)),
 		Tags: tl, Nontrivial: granted > 0 && refused > 0 && failures > 0,
 	}
 }
@@ -480,4 +480,33 @@ func sortStrings(s []string) {
 			s[j], s[j-1] = s[j-1], s[j]
 		}
 	}
+}
+
+// numbers are written as primitive 63-bit integer literals (uint63_scope is open in the case files)
+func uz(v int64) string {
+	if v < 0 {
+		return "0" // clock readings and lastRefill are never negative under the virtual clock
+	}
+	return strconv.FormatInt(v, 10)
+}
+
+// signed: (ZP n) / (ZM n)
+func coqZi(v int64) string {
+	if v < 0 {
+		return fmt.Sprintf("(ZM %d)", uint64(-v)&(1<<63-1))
+	}
+	return fmt.Sprintf("(ZP %d)", v)
+}
+
+// right-nested monomorphic step list: SC h s (SC h s (... SN))
+func coqSteps(items []string) string {
+	var b strings.Builder
+	for _, it := range items {
+		b.WriteString("(SC ")
+		b.WriteString(it)
+		b.WriteString("\n ")
+	}
+	b.WriteString("SN")
+	b.WriteString(strings.Repeat(")", len(items)))
+	return b.String()
 }
